@@ -7,7 +7,7 @@ import Cellml.C09.Model
     The pattern tables of `harness/code_specs/graph*.py` bind each python leaf (a networkx call, a sympy call, an
     attribute of a `Variable`) to one of the accessors below. Core Lean only. -/
 
-namespace Cellml.Tie
+namespace Cellml.Tie.PGraph
 open C09
 
 /-! ## Exception classes
@@ -172,4 +172,4 @@ def buildView (key : Node → String) (eqs : List Eqn) (vars : List Node) (rq : 
   rhsIsQuantity := rq
   key := key
 
-end Cellml.Tie
+end Cellml.Tie.PGraph
